@@ -74,6 +74,7 @@ type Rec struct {
 	LEnter  int64 `json:"lenter,omitempty"` // loader entry / exit stamps (this call ran the loader)
 	LExit   int64 `json:"lexit,omitempty"`
 	LVal    int   `json:"lval,omitempty"`
+	LNF     bool  `json:"lnf,omitempty"` // the loader answered ErrNotFound
 	Err     int   `json:"err,omitempty"` // 0 none 1 error 2 notfound 3 panic
 	N       int   `json:"n,omitempty"`
 }
@@ -133,6 +134,8 @@ type Trial struct {
 	stalled atomic.Bool
 	loaderV atomic.Int64
 	loads   atomic.Int64
+	churnViolation atomic.Pointer[string]
+	churnReads     atomic.Int64
 	Clock   *phaseClock
 	bodyWrites   sync.WaitGroup // writes issued by other goroutines while an iteration holds the eviction lock
 	statSamples  atomic.Int64
@@ -303,11 +306,19 @@ func (t *Trial) loader(r *Rec) otter.LoaderFunc[int, int] {
 		r.LEnter = t.now()
 		t.loads.Add(1)
 		v := int(9_000_000_000 + t.loaderV.Add(1))
-		r.LVal = v
+		nf := t.rnd()%4 == 0
+		if !nf {
+			r.LVal = v
+		}
 		for i := 0; i < int(t.rnd()%3); i++ {
 			runtime.Gosched()
 		}
 		r.LExit = t.now()
+		if nf {
+			// "not in the data source": nothing is stored, and a write that landed meanwhile stays
+			r.LNF = true
+			return 0, otter.ErrNotFound
+		}
 		return v, nil
 	}
 }
@@ -487,13 +498,36 @@ func (t *Trial) worker(w int, rng *core.Rng, out *[]Rec) {
 func (t *Trial) churn(stop *atomic.Bool, rng *core.Rng) {
 	base := 1_000_000
 	n := t.Cfg.Churn
+	// Only this goroutine touches the churn keys: without a bound and without expiration each of them
+	// behaves as in a sequential map, whatever the table does meanwhile (growing, shrinking).
+	exact := t.Cfg.SizeKind == 0 && t.Cfg.ExpiryTTL == 0
+	fail := func(format string, a ...any) {
+		msg := fmt.Sprintf(format, a...)
+		t.churnViolation.CompareAndSwap(nil, &msg)
+	}
 	for round := 0; !stop.Load() && round < 4; round++ {
-		for i := 0; i < n && !stop.Load(); i++ {
+		m := 0
+		for i := 0; i < n && (round == 0 || !stop.Load()); i++ { // the first round always runs in full
 			t.Cache.Set(base+i, -(i + 1))
+			m = i + 1
 			progress.Add(1)
 		}
+		if exact {
+			for i := 0; i < m; i++ {
+				if v, ok := t.Cache.GetIfPresent(base + i); !ok || v != -(i+1) {
+					fail("churn key %d was set to %d by the only goroutine that uses it (no bound, no expiration), and GetIfPresent returns (%d,%v) after %d further inserts of other keys", base+i, -(i + 1), v, ok, m-i-1)
+				}
+				t.churnReads.Add(1)
+			}
+		}
 		for i := 0; i < n; i++ {
-			t.Cache.Invalidate(base + i)
+			v, ok := t.Cache.Invalidate(base + i)
+			if exact && i < m && (!ok || v != -(i+1)) {
+				fail("churn key %d holds %d, set by the only goroutine that uses it, and Invalidate returns (%d,%v)", base+i, -(i + 1), v, ok)
+			}
+			if exact && i >= m && ok {
+				fail("churn key %d was never set in this round and Invalidate returns (%d,true)", base+i, v)
+			}
 			progress.Add(1)
 		}
 	}
